@@ -184,6 +184,10 @@ def expected_model(spec: dict, outcomes: list) -> list:
                     continue
                 lab, k, multi = table[kw]
                 val, un, route = interpret(kind, kw, v)
+                if isinstance(val, dict) and '$ref' in val and not (val['$ref'] < len(outcomes) and outcomes[val['$ref']][0] == 'ok'):
+                    # the call that should have made the referred object was rejected: the harness has no object to pass
+                    # (it passes None, i.e. nothing is assigned)
+                    val = None
                 a = attrs[lab]
                 a.route = route
                 if val is not None:
